@@ -18,7 +18,7 @@
 
    "leaks nothing" is not a statement about the model; it is checked on the
    real code only (harness: blocks outstanding after teardown, ASan). *)
-From DV Require Import Spec.OomSpec Proofs.OomGeneric Proofs.OomLists Proofs.OomHandlers Proofs.OomMain Proofs.OomRefute Proofs.OomTight Proofs.OomClean.
+From DV Require Import Spec.OomSpec Proofs.OomGeneric Proofs.OomLists Proofs.OomHandlers Proofs.OomMain Proofs.OomRefute Proofs.OomTight Proofs.OomClean Spec.OomStringSpec Proofs.OomString.
 Local Open Scope N_scope.
 
 (* ---- the literal statement and its refutation ------------------------------------------------ *)
@@ -168,10 +168,125 @@ Proof. exact tight_owner_flags. Qed.
 Print Assumptions C14_tight_owner_flags.
 
 Theorem C14_tight_hello : forall b c cn,
-  find_conn (b_conns b) c = Some cn -> c_active cn = false ->
+  find_conn (b_conns b) c = Some cn -> c_active cn = false -> (b_maxconns b <=? b_uidcount b) = false ->
   exists b', step_oom 9 b (EvHello c) = OOk b' [(c, MError ENoMemory)] /\ ~ same_state b' b.
 Proof. exact tight_hello. Qed.
 Print Assumptions C14_tight_hello.
+
+(* finding F14.4: one allocation earlier (the loginfo string of bus_connection_complete) the connection does
+   not even become active, but stays counted against max_connections_per_user *)
+Theorem C14_tight_hello_uid_count : forall b c cn,
+  find_conn (b_conns b) c = Some cn -> c_active cn = false -> (b_maxconns b <=? b_uidcount b) = false ->
+  exists b', step_oom 8 b (EvHello c) = OOk b' [(c, MError ENoMemory)] /\
+             b_uidcount b' = b_uidcount b + 1 /\ b_conns b' = b_conns b /\ ~ same_state b' b.
+Proof. exact tight_hello_uid_count. Qed.
+Print Assumptions C14_tight_hello_uid_count.
+
+(* ... so that with max_connections_per_user = 3 and two clients registered, the third one's retried Hello is refused *)
+Theorem C14_hello_uid_count_refuted :
+  exists b b', run (init_bus_full 512 512 128 3) [EvConnect; EvHello 0; EvConnect; EvHello 1; EvConnect] = Some b /\
+               step_oom 8 b (EvHello 2) = OOk b' [(2, MError ENoMemory)] /\
+               step b' (EvHello 2) = OOk b' [(2, MError ELimitsExceeded)] /\
+               (exists b2 o, step b (EvHello 2) = OOk b2 o /\ In (2, MHelloReply 2) o).
+Proof.
+  do 2 eexists. split; [vm_compute; reflexivity|]. split; [vm_compute; reflexivity|]. split; [vm_compute; reflexivity|].
+  do 2 eexists. split; [vm_compute; reflexivity|]. left; reflexivity.
+Qed.
+Print Assumptions C14_hello_uid_count_refuted.
+
+(* ==== library side: DBusString (dbus/dbus-string.c) and the header setter built on it ==================
+   Model Oom.DString (contents + allocated + the one fallible realloc, every primitive returning the
+   string ALSO on failure), specification Spec.OomStringSpec.  [exact] = the test-build growth policy,
+   F = which allocations fail; both arbitrary. *)
+
+(* "the operation reports out-of-memory [and] leaves ... message contents ... exactly as it was", for each of
+   lengthen, set_length, insert_bytes, insert_byte, align_length, insert_2/4/8_aligned, insert_alignment,
+   alloc_space, append_len, append_byte, copy_len, replace_len: FALSE means contents AND capacity are what
+   they were, and either a length limit was hit (nothing allocated) or the one allocation failed *)
+Theorem C14_string_fail_unchanged : forall exact F i s op s' i',
+  run_sop exact F i s op = (false, s', i') -> s' = s /\ (i' = i \/ (i' = (i + 1)%N /\ F i = true)).
+Proof. exact sop_fail_unchanged. Qed.
+Print Assumptions C14_string_fail_unchanged.
+
+(* ... and TRUE means the documented contents, a valid string, and at most one allocation - none if the
+   longest intermediate length fits the current allocation *)
+Theorem C14_string_ok_spec : forall exact F i s op s' i',
+  wf s -> sop_pre s op = true -> run_sop exact F i s op = (true, s', i') ->
+  d_bytes s' = spec_sop (d_bytes s) op /\ wf s' /\ counted F i s (peak_len (d_bytes s) op) s' i'.
+Proof. exact sop_ok_spec. Qed.
+Print Assumptions C14_string_ok_spec.
+
+(* write_basic_field (a new header field is appended by insertions between the last field and the reserved
+   padding): a failure anywhere, followed by the append_failed cleanup, gives back the header data *)
+Theorem C14_header_append_fail : forall exact F i h ops h' i',
+  wf (h_data h) -> (h_padding h <= dlen (h_data h))%nat ->
+  window_ops (dlen (h_data h) - h_padding h) (h_padding h) (d_bytes (h_data h)) ops ->
+  write_basic_field exact F i h ops = (false, h', i') ->
+  d_bytes (h_data h') = d_bytes (h_data h) /\ h_padding h' = h_padding h /\ wf (h_data h').
+Proof. exact write_basic_field_fail. Qed.
+Print Assumptions C14_header_append_fail.
+
+(* _dbus_type_reader_set_basic on an existing variable-length field: whatever fails (in the replacement
+   block or in the final _dbus_string_replace_len), the header is untouched *)
+Theorem C14_header_replace_fail : forall exact F i h n block at_ oldlen h' i',
+  set_basic_field exact F i h n block at_ oldlen = (false, h', i') -> h' = h.
+Proof. exact set_basic_field_fail. Qed.
+Print Assumptions C14_header_replace_fail.
+
+(* _dbus_header_set_field_basic as it is since 813204b: reserve_header_padding, the edit,
+   correct_header_padding on every path: a reported failure leaves data and padding as they were *)
+Theorem C14_header_set_field_fail : forall exact F i h e,
+  hdr_ok h -> edit_ok h e ->
+  match header_set_field exact F true i h e with
+  | Some (false, h', _) => d_bytes (h_data h') = d_bytes (h_data h) /\ h_padding h' = h_padding h
+  | _ => True
+  end.
+Proof.
+  intros exact F i h e H1 H2. pose proof (header_set_field_fail exact F i h e H1 H2) as H.
+  destruct (header_set_field exact F true i h e) as [[[[|] h'] i']|]; auto.
+Qed.
+Print Assumptions C14_header_set_field_fail.
+
+(* the two statements above are about this very code: with the overwrite before the fallible insertion in
+   _dbus_string_replace_len (seeded defect C14_2), or without correct_header_padding on the failure path
+   (finding F14.2, the code before 813204b), they are false *)
+Theorem C14_replace_len_order_matters :
+  let s := mkD [104; 101; 108; 108; 111]%N 13 in
+  exists s' i', replace_len_swapped true (N.eqb 0) 0 [65; 66; 67; 68; 69; 70]%N 0 6 s 1 2 = (false, s', i') /\ s' <> s /\
+                replace_len true (N.eqb 0) 0 [65; 66; 67; 68; 69; 70]%N 0 6 s 1 2 = (false, s, i').
+Proof. exact replace_len_swapped_breaks. Qed.
+Print Assumptions C14_replace_len_order_matters.
+
+Theorem C14_header_set_unfixed_refuted :
+  let h := mkH (mkD (repeat 1%N 13 ++ repeat 0%N 3) 24) 3 in
+  exists h' i', header_set_field true (N.eqb 1) false 0 h (HAppend [OAllocSpace 8]) = Some (false, h', i') /\
+                d_bytes (h_data h') = d_bytes (h_data h) ++ junk 4 /\
+                exists h2 i2, header_set_field true (N.eqb 1) true 0 h (HAppend [OAllocSpace 8]) = Some (false, h2, i2) /\
+                              d_bytes (h_data h2) = d_bytes (h_data h).
+Proof. exact header_set_unfixed_breaks. Qed.
+Print Assumptions C14_header_set_unfixed_refuted.
+
+(* non-vacuity: a well-formed header, the operation sequence of a string-valued field (alloc_space,
+   struct alignment, field code, variant signature, length, text, NUL) is a window program for it, and a
+   failure of its 3rd allocation is reported with the data unchanged *)
+Definition ex_hdr : hdr := mkH (mkD (repeat 1%N 13 ++ repeat 0%N 3) 24) 3.
+Definition ex_ops : list sop :=
+  [OAllocSpace 8; OInsertBytes 13 3 0; OInsertByte 16 6; OInsertByte 17 1; OCopyLen [115]%N 0 1 18; OInsertByte 19 0;
+   OInsertAligned 20 [3; 0; 0; 0]%N; OCopyLen [97; 46; 98]%N 0 3 24; OInsertByte 27 0].
+Example C14_ex_header :
+  hdr_ok ex_hdr /\ edit_ok ex_hdr (HAppend ex_ops) /\
+  (exists h' i', header_set_field true (N.eqb 2) true 0 ex_hdr (HAppend ex_ops) = Some (false, h', i') /\
+                 d_bytes (h_data h') = d_bytes (h_data ex_hdr) /\ h_padding h' = 3%nat /\ d_alloc (h_data h') = 36%nat (* only the capacity grew *)) /\
+  (exists h' i', header_set_field true (fun _ => false) true 0 ex_hdr (HAppend ex_ops) = Some (true, h', i') /\
+                 d_bytes (h_data h') = repeat 1%N 13 ++ [0; 0; 0; 6; 1; 115; 0; 3; 0; 0; 0; 97; 46; 98; 0; 0; 0; 0; 0]%N).
+Proof.
+  split.
+  { unfold hdr_ok, ex_hdr, wf. split; [split; [vm_compute; repeat constructor|vm_compute; reflexivity]|].
+    split; [vm_compute; repeat constructor|]. exists (repeat 1%N 13). split; vm_compute; reflexivity. }
+  split.
+  { unfold edit_ok, ex_hdr, ex_ops. vm_compute. repeat (split; try reflexivity; try (repeat constructor)). }
+  split; do 2 eexists; (split; [vm_compute; reflexivity|]); vm_compute; auto.
+Qed.
 
 (* ---- the hypotheses are satisfiable and both disjuncts occur ---------------------------------------- *)
 Definition ex_hist : list event :=
